@@ -175,6 +175,12 @@ func checkReject(w *W, st *c11state, v2 bool, level int, s string, m *strMeta, m
 	w.Count("rejected")
 	matches := lib.Matches(err)
 	c := decodeCaseMode(k, s, mode)
+	if lib.Annotated(err) {
+		w.Violate(Violation{Monitor: "C11", Check: "a rejection does not carry what a client attached to an earlier error value", Case: c, Observed: clip(lib.ErrText(err), 300)})
+	}
+	if Hash(s)%3 == 0 {
+		defer func() { w.CountN("error_values_annotated_by_the_client_afterwards", lib.Annotate(err)) }()
+	}
 	if len(matches) != 1 {
 		w.Violate(Violation{Monitor: "C11", Check: "a rejection matches exactly one exported sentinel under errors.Is", Case: c, Observed: fmt.Sprintf("%v (%s)", matches, lib.ErrText(err))})
 		return
